@@ -412,6 +412,20 @@ def rule_wrapper_hygiene(check, rule):
         if uw is None:
             check.violation(rule, site_of(init, init.node), '%s.__init__ does not call update_wrapper(self, ...)' % ci.name, key=key)
             continue
+        # what is copied from: the object that ends up as self.__wrapped__ (the decorated callable), not the decorator function
+        uwc = [n for n in ast.walk(body[uw]) if isinstance(n, ast.Call) and norm(n.func).endswith('update_wrapper') and n.args and norm(n.args[0]) == selfn][0]
+        wrapped_src = [norm(a_.value) for st_ in body for a_ in ast.walk(st_) if isinstance(a_, ast.Assign)
+                       and any(isinstance(t_, ast.Attribute) and t_.attr == '__wrapped__' and isinstance(t_.value, ast.Name) and t_.value.id == selfn
+                               for t_ in a_.targets)]
+        kuw = '%s|update_wrapper-from' % ci.key
+        if len(uwc.args) >= 2 and wrapped_src:
+            if norm(uwc.args[1]) in wrapped_src:
+                check.holds(rule, site_of(init, uwc), '%s copies name, docstring and attributes from the object it wraps' % ci.name, key=kuw)
+            else:
+                check.violation(rule, site_of(init, uwc), '%s.__init__ copies the metadata of %s, but wraps %s: the decorated callable shows up under the '
+                                'decorator function\'s name, docstring and attributes (a forger or __signature__ among them)'
+                                % (ci.name, norm(uwc.args[1]), wrapped_src[0]), key=kuw,
+                                witness='decorated.__name__ / the attributes copied onto the wrapper come from the wrapped function')
         # attributes assigned before update_wrapper can be overwritten by the copied __dict__
         slots = set()
         sv = ci.assigns.get('__slots__')
